@@ -379,7 +379,7 @@ fn check_v4_from_str(s: &str) {
     kani::cover!(r.is_err());
 }
 
-// vk: timeout=900; bound=0..=9 ASCII bytes (shortest valid prefix text is 9 bytes)
+// vk: tier=thorough; timeout=900; bound=0..=9 ASCII bytes (shortest valid prefix text is 9 bytes)
 #[kani::proof]
 #[kani::unwind(11)]
 fn c16b_ipv4prefix_from_str_9() {
